@@ -293,15 +293,16 @@ def kani_cmdline(cfg: str) -> str:
             f"`#[cfg(kani)] mod verif_kani;` lines appended)")
 
 
-def kani_playback_test(scratch: Scratch, cfg: str, h: KHarness) -> tuple[str | None, str]:
+def kani_playback_test(scratch: Scratch, cfg: str, h: KHarness, cap: int = 240) -> tuple[str | None, str]:
     """Re-run one failing harness with concrete playback; return (generated #[test] source or None, raw output)."""
     env = _kani_env(scratch, cfg)
+    tmo = min(h.timeout, cap)
     cmd = ["cargo", "kani", "--lib", "-Z", "stubbing", "-Z", "function-contracts", "-Z", "unstable-options",
-           "-Z", "concrete-playback", "--concrete-playback=print", "--harness-timeout", f"{h.timeout}s",
+           "-Z", "concrete-playback", "--concrete-playback=print", "--harness-timeout", f"{tmo}s",
            "--harness", h.name]
     try:
         p = subprocess.run(cmd, cwd=scratch.repo, env=env, stdout=subprocess.PIPE, stderr=subprocess.STDOUT, text=True,
-                           timeout=h.timeout * 2 + 600)
+                           timeout=tmo + 300)
     except subprocess.TimeoutExpired as e:
         return None, f"playback generation timed out: {e}"
     out = p.stdout
